@@ -330,6 +330,11 @@ def index_family():
             fld('tags', 'ManyToManyField', related='vapp.Owner', db_table='vapp_item_tags_x'),
             fld('plain', 'ManyToManyField', related='vapp.Owner')],
          'unique_together': [], 'index_together': [], 'indexes': [], 'constraints': []}]}]}
+    mk = lambda app, name: {'name': name, 'table': '%s_%s' % (app, name.lower()), 'fields': [
+        fld('id', 'AutoField', primary_key=True), fld('label', 'CharField', max_length=10, null=True)],
+        'unique_together': [], 'index_together': [], 'indexes': [], 'constraints': []}
+    spec3 = {'apps': [{'id': 'vapp', 'models': [mk('vapp', 'Tag'), mk('vapp', 'Topic')]},
+                      {'id': 'wapp', 'models': [mk('wapp', 'Tag')]}]}
     return [
         (spec, [{'t': 'RenameField', 'model': 'Order', 'old': 'reference', 'new': 'order_no', 'db_column': None,
                  'db_table': None}, cf('Order', 'order_no', ('db_index', 'false'))]),
@@ -344,6 +349,14 @@ def index_family():
         (spec2, [cf('Item', 'owner', ('db_column', 'null'))]),
         (spec2, [cf('Item', 'tags', ('db_table', '"vapp_item_labels"'))]),
         (spec2, [cf('Item', 'plain', ('db_table', '"vapp_item_plain2"'))]),
+        # a many-to-many field between two models of the same NAME in different apps (the join table's two columns
+        # are then called from_<name>_id / to_<name>_id), and to the model itself
+        (spec3, [{'t': 'AddField', 'model': 'Tag', 'field': 'friends', 'ftype': 'ManyToManyField', 'initial': None,
+                  'attrs': [['related_model', '"wapp.Tag"']]}]),
+        (spec3, [{'t': 'AddField', 'model': 'Tag', 'field': 'peers', 'ftype': 'ManyToManyField', 'initial': None,
+                  'attrs': [['related_model', '"vapp.Tag"']]}]),
+        (spec3, [{'t': 'AddField', 'model': 'Tag', 'field': 'tops', 'ftype': 'ManyToManyField', 'initial': None,
+                  'attrs': [['related_model', '"vapp.Topic"']]}]),
         # the index a relation column gets by default is switched off (and on again), alone and next to a rebuild
         (spec2, [cf('Item', 'owner', ('db_index', 'false'))]),
         (spec2, [cf('Item', 'owner', ('db_index', 'false')), cf('Item', 'owner', ('db_index', 'true'))]),
